@@ -595,6 +595,20 @@ func (c *Conn) Reset() {
 	_ = c.raw.Close()
 }
 
+// Discard reads and throws away whatever the client still writes, until it closes or the time-out. Used after
+// the byte stream became unparsable, so that the client's writers do not block on a full socket buffer.
+func (c *Conn) Discard(timeout time.Duration) {
+	c.Note("discarding")
+	c.rd.buf = nil
+	buf := make([]byte, 32768)
+	_ = c.cur.SetReadDeadline(time.Now().Add(timeout))
+	for {
+		if _, err := c.cur.Read(buf); err != nil {
+			return
+		}
+	}
+}
+
 // Drain reads and records events until EOF, error or the time-out.
 func (c *Conn) Drain(timeout time.Duration) {
 	deadline := time.Now().Add(timeout)
